@@ -234,6 +234,14 @@ class RealRun:
             self.sched = None
             ev['loaded'] = snap_state(self.pre.state_dict())
             w.set_digest(self._digest)
+        elif kind == 'train_evalsub':
+            # a training iteration during which the first registered
+            # sub-module is in eval mode (frozen statistics): it captures no
+            # batch on this step
+            first = next(iter(self.pre._layers))
+            first.eval()
+            self.train(ev)
+            first.train()
         elif kind == 'reload':
             # a factor-less state loaded back into the SAME object, on the
             # listed ranks only (implies no collective: there is nothing to
